@@ -292,8 +292,9 @@ def run_history(ctx, seed):
                 late = pw.installed_after_shutdown(c)
                 if pname == 'HostConnection' and c.sim_id in pw.pool_rec(p)['trash_at_shutdown'] and not installed:
                     viol.append(('hostconnection-shutdown-never-closes-trash', where + ': it was in the pool\'s _trash when shutdown() was called'))
-                elif pname == 'HostConnection' and installed and late and c.sim_creator == 'pool-replace' and p.is_shutdown:
-                    viol.append(('replacement-installed-after-shutdown-left-open', where + ': _replace finished connecting after shutdown() and installed it'))
+                elif pname == 'HostConnection' and late and c.sim_id not in pw.in_service and c.sim_creator == 'pool-replace' and p.is_shutdown:
+                    viol.append(('replacement-installed-after-shutdown-left-open', where + ': _replace finished connecting while / after shutdown() ran and '
+                                 'installed it (%s)' % ('it is still pool._connection' if installed else 'shutdown() then set _connection = None without closing it')))
                 elif pname == 'HostConnectionPool' and installed and late and c.sim_creator in ('pool-replace', 'pool-grow') and p.is_shutdown:
                     viol.append(('pool-connection-added-after-shutdown-left-open', where + ': _add_conn_if_under_max finished connecting after shutdown() and added it'))
                 elif pname == 'HostConnection' and not installed and c.sim_creator == 'pool-replace' and pw.duplicate_replacements(p):
@@ -390,7 +391,7 @@ def run(ctx):
                            "node_history": [repr(e) for e in hist[2][-40:]], "closes": hist[3][-8:]})
         if not viol and len(ctx.samples) < 4 and info['replaced'] and info['requests'] < 12:
             ctx.sample({"info": info, "steps": [repr(e) for e in hist[0]], "closes": hist[3][-6:]})
-    ctx.floor_distinct = 100 if ctx.quick else 3000
-    ctx.floor_counters = {"histories": 100, "histories_v2_pool": 20, "invariant_evaluations_under_lock": 5000, "pool_connections_in_closure_census": 150,
-                          "quiescent_connections_checked_for_conservation": 40, "direct_borrows": 50, "borrows_attempted_after_shutdown": 20,
-                          "replacement_connections": 10}
+    ctx.floor_distinct = 60 if ctx.quick else 2000
+    ctx.floor_counters = {"histories": 60, "histories_v2_pool": 10, "invariant_evaluations_under_lock": 3000, "pool_connections_in_closure_census": 80,
+                          "quiescent_connections_checked_for_conservation": 20, "direct_borrows": 30, "borrows_attempted_after_shutdown": 10,
+                          "replacement_connections": 5}
